@@ -96,6 +96,8 @@ class Gate:
             if not dead and ("g_nonempty",) in st.flags and not any(f[0] in ("verdict", "verdict_checked") for f in st.flags) and not any(f[0] == "unwinding" for f in st.flags):
                 eng.violate("GATE-5", "no-orphan-test", "a live object with adoption links is dropped without evaluating the orphan test", ev.b, st)
             for f in st.flags:
+                if f[0] == "verdict" and st.empty(("loc", f[1])) is True:
+                    continue    # the verdict holds vacuously for an empty trace result: there is no group
                 if f[0] == "verdict" and not any(g[0] in ("group_lowered", "group_iter") and g[1] == f[1] for g in st.flags) and not any(g[0] == "unwinding" for g in st.flags):
                     eng.violate("GATE-5", "orphan-without-teardown", "the orphan test succeeded but drop returns without tearing the group down", ev.b, st)
         return None
